@@ -21,6 +21,7 @@ import (
 
 var foPath = map[string]string{
 	"a": "/w/a", "b": "/w/b", "c": "/w/sub/c", "sub": "/w/sub", "dev": "/dev/null",
+	"ld": "/w/l/d/f", "td": "/w/t/d/g", // interacting directory chains: /w/l may be a link to /w/t
 	"target": "/w/target", "tdir": "/w/tdir", "nowhere": "/w/nowhere", "probe": "/probe/contfs",
 	"long": "/w/" + strings.Repeat("L", 250) + strings.Repeat("/"+strings.Repeat("M", 250), 11), // 3 KB, does not exist
 }
@@ -58,6 +59,8 @@ type foFS struct {
 	C   string `json:"c"`
 	N   int    `json:"n"`  // numbered regular files 1..n in /w/n
 	Ld  int    `json:"ld"` // 1: the chain of fifteen 250-byte directories is planted below /w
+	Tl  string `json:"tl"` // /w/l: absent | dir | file | link (-> /w/t)
+	Tt  string `json:"tt"` // /w/t: absent | dir
 }
 
 type foCase struct {
@@ -224,6 +227,8 @@ func (e *env) kindOf(p string) string {
 			return "symout"
 		case "/dev/null":
 			return "symdev"
+		case "/w/t":
+			return "symt"
 		case "/w/nowhere":
 			return "dangling"
 		}
@@ -238,6 +243,10 @@ func (e *env) observeFS() foObs {
 		o[k] = e.kindOf(foPath[k])
 	}
 	o["ldeep"] = e.kindOf(longPath(3, "dir", 0))
+	for k, p := range map[string]string{"tl": "/w/l", "tt": "/w/t", "tld": "/w/l/d", "ttd": "/w/t/d",
+		"tlf": "/w/l/d/f", "ttf": "/w/t/d/f", "ttg": "/w/t/d/g"} {
+		o[k] = e.kindOf(p)
+	}
 	return o
 }
 
@@ -377,6 +386,17 @@ func (w *foWorker) run(c foCase) foOut {
 	}
 	if c.FS.Ld > 0 {
 		args = append(args, "ldir:/w")
+	}
+	switch c.FS.Tl {
+	case "dir":
+		args = append(args, "dir:/w/l")
+	case "file":
+		args = append(args, "reg:/w/l")
+	case "link":
+		args = append(args, "sym:/w/l:/w/t")
+	}
+	if c.FS.Tt == "dir" {
+		args = append(args, "dir:/w/t")
 	}
 	if c.FS.Sub == "dir" {
 		args = append(args, "dir:/w/sub")
